@@ -11,7 +11,7 @@ from ..core import (AnalysisError, FuncInfo, ap, ancestors, call_attr, calls, en
                     is_none_test, norm, src, stores, walk)
 from .common import callers_of, writers_of
 from .c05 import (BCIRC, Explorer, St, assume, tv, arg_of, call_fact, cfg_nodes, check_collect_acks, check_pairing,
-                  check_resend, dump, invalidate, lookup_var, msg_param, path_fact, resolve_path, single_assign)
+                  check_poll_ungated, check_register_after_send, check_resend, check_resend_survives, dump, invalidate, lookup_var, msg_param, path_fact, resolve_path, single_assign)
 
 CLIENT = "hippolyzer/lib/client/hippo_client.py"
 
@@ -636,6 +636,8 @@ def r3(ctx, dr, ex, outs, msg):
                "sent without PacketFlags.RELIABLE: send() does not register it and the peer never acks it")
         ctx.ob("C19.R3", "Circuit.send_reliable refuses non-synthetic messages (send() registers only synthetic ones)",
                path_fact(c, f"{m}.synthetic", sr.node) is True, ctx.w(sr, c))
+    # a send that raised leaves nothing behind that waits for an ack
+    check_register_after_send(ctx, "C19.R3")
 
 
 def r4(ctx):
@@ -717,13 +719,11 @@ def r5(ctx):
         anc = list(ancestors(c))
         okt = okt or (any(isinstance(a, (ast.For, ast.AsyncFor)) and (ap(a.iter) or "").endswith("session.regions") for a in anc)
                       and any(isinstance(a, ast.While) for a in anc))
-    for c in find_calls(ar.node, "resend_unacked"):
-        gated = [("" if pol else "not ") + norm(e) for e, pol in facts(c, ar.node) if "is_alive" in src(e)]
-        ctx.ob("C19.R5", "HippoClient._attempt_resends: resend_unacked is polled whether or not the circuit is marked alive",
-               not gated, ctx.w(ar, c),
-               f"the poll depends on {gated}: a circuit is created with is_alive False and only marked alive after its "
-               f"reliable UseCircuitCode was acked, so that first send is never retransmitted and never fails "
-               f"(connect() / login() hang on one lost datagram)")
+    check_poll_ungated(ctx, "C19.R5", ar, "HippoClient._attempt_resends",
+                       "a circuit is created with is_alive False and only marked alive after its reliable UseCircuitCode "
+                       "was acked, so that first send is never retransmitted and never fails (connect() / login() hang "
+                       "on one lost datagram)")
+    check_resend_survives(ctx, "C19.R5", ar, "HippoClient._attempt_resends")
     ctx.ob("C19.R5", "HippoClient._attempt_resends drives resend_unacked for every region, repeatedly", okt, ar.where,
            "no periodic resend: an unacknowledged reliable send neither completes nor fails")
 
